@@ -31,6 +31,7 @@ ItemList == <<
     WithAs(It("a9", "singleton", 3, "a", "ctorerr"), <<"I0">>),       \* S3 as I0
     WithAs(It("a10", "singleton", 2, "b", "ctorerr"), <<"I0", "I1">>),\* S2 as I0, I1: collides with a9 on I0
     It("a11", "singleton", 0, "a", "inst"),                           \* instance value of S0
+    WithName(WithAs(It("a14", "singleton", 3, "b", "ctorerr"), <<"I0">>)),   \* S3 as I0 / "k"
     Bad(It("b1", "singleton", 0, "a", "ctorerr"), "nameandgroup"),
     Bad(It("b2", "singleton", 0, "a", "ctorerr"), "backquote"),
     Bad(It("b3", "singleton", 0, "a", "ctorerr"), "asstruct"),
@@ -48,7 +49,7 @@ ItemList == <<
     Bad(It("c8", "singleton", 0, "a", "ctorerr"), "asctxgroup") >>    \* As[context.Context] + Group("g")
 Items == [id \in {ItemList[i].id : i \in DOMAIN ItemList} |-> ItemList[CHOOSE i \in DOMAIN ItemList : ItemList[i].id = id]]
 ItemIds == DOMAIN Items
-ModItems == {"a1", "a2", "a3", "a5", "a6", "b1", "b2"}
+ModItems == {"a1", "a2", "a3", "a5", "a6", "a14", "b1", "b2"}
 Chains == {<<>>, <<"m1">>, <<"m1", "m2">>, <<"m2">>, <<"m1", "m1">>}     \* incl. a module nested in a module of the same name
 RmTypes == {"S0", "S1", "I0"}
 
@@ -63,7 +64,7 @@ Remove == Room /\ Mode = "calls" /\ \E t \in RmTypes :
           Do([ev |-> "remove", t |-> t], [op |-> "remove", t |-> t])
 \* keys: the name "k", and the INTEGER 1 (written "#1": nothing is registered under it - positions inside a group
 \* are not keys)
-RemoveKeyed == Room /\ Mode = "calls" /\ \E t \in {"S0", "S1"}, k \in {"k", "#1"} :
+RemoveKeyed == Room /\ Mode = "calls" /\ \E t \in {"S0", "S1", "I0"}, k \in {"k", "#1"} :
           Do([ev |-> "removekeyed", t |-> t, k |-> k], [op |-> "removekeyed", t |-> t, k |-> k])
 LastOp == IF hist = <<>> THEN "-" ELSE hist[Len(hist)].op
 Build == Room /\ Mode = "calls" /\ Len(rs.snaps) < 2 /\ LastOp # "build"
@@ -71,7 +72,7 @@ Build == Room /\ Mode = "calls" /\ Len(rs.snaps) < 2 /\ LastOp # "build"
 
 Leaves == {[kind |-> "add", item |-> i, t |-> N0, k |-> N0, chain |-> c] : i \in ModItems, c \in Chains}
      \cup {[kind |-> "rm", item |-> N0, t |-> "S0", k |-> N0, chain |-> c] : c \in Chains}
-     \cup {[kind |-> "rmk", item |-> N0, t |-> "S0", k |-> "k", chain |-> c] : c \in {<<>>, <<"m1">>}}
+     \cup {[kind |-> "rmk", item |-> N0, t |-> t, k |-> "k", chain |-> c] : c \in {<<>>, <<"m1">>}, t \in {"S0", "I0"}}
      \cup {[kind |-> "nil", item |-> N0, t |-> N0, k |-> N0, chain |-> c] : c \in {<<>>, <<"m1", "m2">>}}
 \* consecutive leaves describe one tree: nesting only changes by entering / leaving modules at the boundary
 Modules == Mode = "modules" /\ Len(hist) = 0 /\ \E n \in 1..MaxOps : \E ls \in [1..n -> Leaves] :
